@@ -19,17 +19,17 @@ it is appended and nothing else changes -/
 theorem src_addFrame_ok_iff (b : Builder) (f : Frame) (b' : Builder) :
     Src.addFrame b f = .ok b' ↔ b.Accepts f ∧ b' = { b with frames := b.frames ++ [f] } := by
   simp only [Src.addFrame, Builder.addFrame, Builder.Accepts]
-  grind
+  first | done | grind
 
 /-- every rejection of the translated `add_frame` carries a reason that truly applies -/
 theorem src_addFrame_err_applies (b : Builder) (f : Frame) (r : BErr) (h : Src.addFrame b f = .err r) : Applies r b f := by
   simp only [Src.addFrame, Builder.addFrame] at h
   unfold Applies
-  grind
+  first | done | grind
 
 theorem src_addFrame_no_panic (b : Builder) (f : Frame) : Src.addFrame b f ≠ .panic := by
   simp only [Src.addFrame, Builder.addFrame]
-  grind
+  first | done | grind
 
 /-- the translated `add_frame` and the hand-written model accept the same frames with the same resulting builder, and
 reject the same frames (the reason may differ where several apply) -/
@@ -59,7 +59,7 @@ theorem src_new_spec (f : Frame) (hid : f.fid < 4096) :
       Src.new f = .ok { isError := !f.notError, expected := f.fid + 1, addr := f.addr, frames := [f] }) ∧
     (¬ (f.start = true ∧ f.idLast = true) → Src.new f = .err .outOfOrder) := by
   simp only [Src.new, Builder.new]
-  grind
+  first | done | grind
 
 /-- the translated `frames_left`: accepted + remaining = announced, without underflow -/
 theorem src_framesLeft_spec (b : Builder) (hb : b.Inv) :
@@ -67,7 +67,7 @@ theorem src_framesLeft_spec (b : Builder) (hb : b.Inv) :
   obtain ⟨i1, i2, i3⟩ := hb
   have : b.frames.length % 65536 = b.frames.length := by omega
   simp only [Src.framesLeft, Builder.framesLeft, Builder.frameCount]
-  grind
+  first | done | grind
 
 #print axioms src_addFrame_ok_iff
 #print axioms src_addFrame_err_applies
